@@ -209,7 +209,7 @@ func (w *c11world) wspPlay(token, path string) string {
 		q = "?token=" + token
 	}
 	d := websocket.Dialer{Subprotocols: []string{"control"}, HandshakeTimeout: 5 * time.Second}
-	ctl, resp, err := d.Dial("ws://"+w.srv.Addr+"/streams"+path+q, nil)
+	ctl, resp, err := d.Dial("ws://"+w.srv.Addr+"/streams"+path+q, kit.ExtraHTTPHeader)
 	if out, ok := wsStatus(resp, err); !ok {
 		return out
 	}
@@ -223,7 +223,10 @@ func (w *c11world) httpFlv(token, path string) string {
 		q = "?token=" + token
 	}
 	req, _ := http.NewRequest("GET", "http://"+w.srv.Addr+"/streams"+path+".flv"+q, nil)
-	cl := &http.Client{Timeout: 8 * time.Second}
+	for k, v := range kit.ExtraHTTPHeader {
+		req.Header[k] = v
+	}
+	cl := &http.Client{Timeout: 60 * time.Second}
 	resp, err := cl.Do(req)
 	if err != nil {
 		return "error:http"
@@ -245,7 +248,7 @@ func (w *c11world) wsFlv(token, path string) string {
 		q = "?token=" + token
 	}
 	d := websocket.Dialer{HandshakeTimeout: 5 * time.Second}
-	ws, resp, err := d.Dial("ws://"+w.srv.Addr+"/streams"+path+".flv"+q, nil)
+	ws, resp, err := d.Dial("ws://"+w.srv.Addr+"/streams"+path+".flv"+q, kit.ExtraHTTPHeader)
 	if out, ok := wsStatus(resp, err); !ok {
 		return out
 	}
@@ -472,57 +475,67 @@ func runC11(c *kit.Ctx) {
 					}
 					continue
 				}
-				switch entry {
-				case 0:
-					w.judge("rtsp-play", name, "pull", path, w.rtspPlay(name, u.pass, path), w.allow(name, "pull", path), "digest")
-				case 1:
-					pp := path + "/pub" + fmt.Sprint(rng.Intn(3))
-					w.judge("rtsp-publish", name, "push", pp, w.rtspPublish(name, u.pass, pp), w.allow(name, "push", pp), "digest")
-				case 2, 3, 4, 5, 6, 7:
-					if tok == "" {
-						if !w.login(name) {
-							continue
-						}
-						tok = w.tokens[lname][0]
-					}
-					want := w.allow(name, "pull", path)
-					switch entry {
-					case 2:
-						w.judge("http-flv", name, "pull", path, w.httpFlv(tok, path), want, "token")
-					case 3:
-						w.judge("ws-flv", name, "pull", path, w.wsFlv(tok, path), want, "token")
-					case 4:
-						w.judge("ws-rtsp-play", name, "pull", path, w.wsRtspPlay(tok, path), want, "token")
-					case 5:
-						w.judge("wsp-control", name, "pull", path, w.wspPlay(tok, path), want, "token")
-					case 6:
-						m, ts := w.hls(tok, path, ready)
-						w.judge("hls-m3u8", name, "pull", path, m, want, "token")
-						if ts != "" {
-							w.judge("hls-ts", name, "pull", path, ts, want, "token")
-						}
-					case 7:
-						// publish through a WebSocket RTSP session: needs pull on the connect path AND push on the publish path
-						pp := w.paths[rng.Intn(len(w.paths))] + "/wspub" + fmt.Sprint(rng.Intn(3))
-						w.judge("ws-rtsp-publish", name, "push", pp, w.wsRtspPublish(tok, path, pp), want && w.allow(name, "push", pp), "token+announce-in-websocket")
-					}
-				case 8:
-					if tok == "" {
-						if !w.login(name) {
-							continue
-						}
-						tok = w.tokens[lname][0]
-					}
-					w.judge("api", name, "admin-api", "/api/v1/users", w.api(tok, "GET", "/api/v1/users", ""), u.admin, "GET-users")
-					w.judge("api", name, "admin-api", "/api/v1/routes", w.api(tok, "POST", "/api/v1/routes", `{"pattern":"/c11route/`+sh+`","url":"rtsp://127.0.0.1:1/x"}`), u.admin, "POST-routes")
-				case 9:
-					if tok == "" {
-						continue
-					}
-					w.judge("api", name, "admin-api", "/api/v1/streams/x", w.api(tok, "DELETE", "/api/v1/streams/c11-none", ""), u.admin, "DELETE-stream")
-					w.c.Count("unjudged_stream_query_api_for_non_admin", 1)
-					w.api(tok, "GET", "/api/v1/streams", "")
+				// a third of the HTTP-borne probes also claim, in request headers a normal client never sends, to be the
+				// administrator: identity comes from the token alone, so the reference verdict does not change
+				tokLbl := "token"
+				if entry >= 2 && rng.Intn(3) == 0 {
+					tokLbl = "token+forged-identity-header"
+					kit.ExtraHTTPHeader = http.Header{"user_name_in_token": {"admin"}, "User_name_in_token": {"admin"}, "X-Forwarded-User": {"admin"}, "Username": {"admin"}}
 				}
+				func() {
+					defer func() { kit.ExtraHTTPHeader = nil }()
+					switch entry {
+					case 0:
+						w.judge("rtsp-play", name, "pull", path, w.rtspPlay(name, u.pass, path), w.allow(name, "pull", path), "digest")
+					case 1:
+						pp := path + "/pub" + fmt.Sprint(rng.Intn(3))
+						w.judge("rtsp-publish", name, "push", pp, w.rtspPublish(name, u.pass, pp), w.allow(name, "push", pp), "digest")
+					case 2, 3, 4, 5, 6, 7:
+						if tok == "" {
+							if !w.login(name) {
+								return
+							}
+							tok = w.tokens[lname][0]
+						}
+						want := w.allow(name, "pull", path)
+						switch entry {
+						case 2:
+							w.judge("http-flv", name, "pull", path, w.httpFlv(tok, path), want, tokLbl)
+						case 3:
+							w.judge("ws-flv", name, "pull", path, w.wsFlv(tok, path), want, tokLbl)
+						case 4:
+							w.judge("ws-rtsp-play", name, "pull", path, w.wsRtspPlay(tok, path), want, tokLbl)
+						case 5:
+							w.judge("wsp-control", name, "pull", path, w.wspPlay(tok, path), want, tokLbl)
+						case 6:
+							m, ts := w.hls(tok, path, ready)
+							w.judge("hls-m3u8", name, "pull", path, m, want, tokLbl)
+							if ts != "" {
+								w.judge("hls-ts", name, "pull", path, ts, want, tokLbl)
+							}
+						case 7:
+							// publish through a WebSocket RTSP session: needs pull on the connect path AND push on the publish path
+							pp := w.paths[rng.Intn(len(w.paths))] + "/wspub" + fmt.Sprint(rng.Intn(3))
+							w.judge("ws-rtsp-publish", name, "push", pp, w.wsRtspPublish(tok, path, pp), want && w.allow(name, "push", pp), tokLbl+"+announce-in-websocket")
+						}
+					case 8:
+						if tok == "" {
+							if !w.login(name) {
+								return
+							}
+							tok = w.tokens[lname][0]
+						}
+						w.judge("api", name, "admin-api", "/api/v1/users", w.api(tok, "GET", "/api/v1/users", ""), u.admin, "GET-users:"+tokLbl)
+						w.judge("api", name, "admin-api", "/api/v1/routes", w.api(tok, "POST", "/api/v1/routes", `{"pattern":"/c11route/`+sh+`","url":"rtsp://127.0.0.1:1/x"}`), u.admin, "POST-routes:"+tokLbl)
+					case 9:
+						if tok == "" {
+							return
+						}
+						w.judge("api", name, "admin-api", "/api/v1/streams/x", w.api(tok, "DELETE", "/api/v1/streams/c11-none", ""), u.admin, "DELETE-stream:"+tokLbl)
+						w.c.Count("unjudged_stream_query_api_for_non_admin", 1)
+						w.api(tok, "GET", "/api/v1/streams", "")
+					}
+				}()
 			}
 		}
 		if hi < 2 {
